@@ -218,8 +218,20 @@ func runFile(x *ctx, reader string, L int, rf ref, m fmut) *eng.Violation {
 
 	feat := []string{"part", "filestore-file", "reader", reader, "mutation", m.kind, "empty_region", fmt.Sprint(rf.size == 0)}
 	// control: before the mutation the reference must be served
+	// reads before the mutation: first the bystander, then the target, so that the
+	// LAST read before the file changes is a successful verified read of that very
+	// file (state kept from it - open handles, caches, buffers - must not survive the change)
+	if bystander.Defined() {
+		bb, err := fs.Get(bg, bystander)
+		if err != nil || !bytes.Equal(bb.RawData(), ocontent[2:7]) {
+			return eng.V("intact-reference-rejected", "Get", fmt.Sprintf("%s: Get of the untouched bystander = %v", x.id, err), append(feat, "bystander", "true")...)
+		}
+		x.keep("Filestore.Get(bystander)", bb, bystander, ocontent[2:7], append(feat, "bystander", "true"))
+	}
 	if b, err := fs.Get(bg, c); err != nil || !bytes.Equal(b.RawData(), orig) {
 		return eng.V("intact-reference-rejected", "Get", fmt.Sprintf("%s: before any mutation Get = %v", x.id, err), feat...)
+	} else {
+		x.keep("Filestore.Get(before mutation)", b, c, orig, feat)
 	}
 
 	m.apply(dir, path, content)
@@ -264,6 +276,9 @@ func runFile(x *ctx, reader string, L int, rf ref, m fmut) *eng.Violation {
 	if v := check("Filestore.Get", d1, err1); v != nil {
 		return v
 	}
+	if err1 == nil {
+		x.keep("Filestore.Get", b1, c, orig, feat)
+	}
 	b2, err2 := fm.Get(bg, alias(c)) // same multihash, other codec
 	var d2 []byte
 	if err2 == nil {
@@ -272,10 +287,20 @@ func runFile(x *ctx, reader string, L int, rf ref, m fmut) *eng.Violation {
 	if v := check("FileManager.Get", d2, err2); v != nil {
 		return v
 	}
+	if err2 == nil {
+		x.keep("FileManager.Get", b2, alias(c), orig, feat)
+	}
 	j := &statusJudge{x: x, feat: feat, intact: intact, control: m.kind == "none"}
 	v, lobs := j.judgeAll(fs, c, bystander)
 	if v != nil {
 		return v
+	}
+	if bystander.Defined() {
+		bb, err := fm.Get(bg, bystander)
+		if err != nil || !bytes.Equal(bb.RawData(), ocontent[2:7]) {
+			return eng.V("intact-reference-rejected", "FileManager.Get", fmt.Sprintf("%s: Get of the untouched bystander after the reads of the mutated file = %v", x.id, err), append(feat, "bystander", "true")...)
+		}
+		x.keep("FileManager.Get(bystander, last)", bb, bystander, ocontent[2:7], append(feat, "bystander", "true"))
 	}
 	cls := "served"
 	if err1 != nil {
